@@ -14,7 +14,8 @@ class Case:
     """tags: param -> type tag of the actual argument (call sites) or label of the view variant."""
     for p,t in s.when.items():
       ts=t if isinstance(t,(tuple,list)) else (t,)
-      if tags.get(p) not in ts: return False
+      tag=tags.get(p) or ''
+      if not any(tag==x or tag.startswith(x+'(') or x.startswith(tag+'(') for x in ts): return False
     return True
   def clauses(s):
     """top-level conjuncts of the postcondition, each its own obligation."""
@@ -23,26 +24,41 @@ class Case:
     if isinstance(t,ast.BoolOp) and isinstance(t.op,ast.And): return list(t.values)
     return [t]
 
+class Loop:
+  def __init__(s,invariant,decreases=None,modifies=(),lemmas=()):
+    s.invariant=list(invariant); s.decreases=decreases; s.modifies=list(modifies); s.lemmas=list(lemmas)
+
 class Contract:
   def __init__(s,key,view,cases,modifies=(),returns=None,source_of_post='',loops=None,ghost=None,property_ids=(),trusted=False,
-               sample=None, build=None, note=''):
+               sample=None, build=None, note='', bounded=None, standin_inputs=None, refute_pins=None):
     s.key=key; s.file,s.qual=key.split('::'); s.view=view; s.cases=cases; s.modifies=list(modifies)
     s.returns=returns; s.source_of_post=source_of_post; s.loops=loops or {}; s.ghost=ghost or {}
     s.property_ids=tuple(property_ids); s.trusted=trusted; s.sample=sample; s.build=build; s.note=note
+    s.bounded=bounded; s.standin_inputs=standin_inputs; s.refute_pins=refute_pins
     s._reg=None
   def module(s,reg): return reg.module(s.file)
   def fn_ast(s,reg): return reg.module(s.file).function(s.qual)
   def param_names(s):
     f=s.fn_ast(s._reg)
-    return [a.arg for a in f.args.args]
+    return [a.arg for a in f.args.args]+[a.arg for a in f.args.kwonlyargs]
+  def vararg(s):
+    f=s.fn_ast(s._reg)
+    return f.args.vararg.arg if f.args.vararg else None
   def bind(s,params,argv,kw,ex):
     f=s.fn_ast(s._reg); env={}
-    if len(argv)>len(params): return Exc('TypeError','too many arguments')
+    va=s.vararg()
+    npos=len(f.args.args)
+    if va is not None:
+      from .values import Tup
+      env[va]=Tup(argv[npos:]); argv=argv[:npos]
+    if len(argv)>npos: return Exc('TypeError','too many arguments')
     for p,v in zip(params,argv): env[p]=v
     for k,v in kw.items():
       if k not in params or k in env: return Exc('TypeError','bad keyword')
       env[k]=v
-    defaults=f.args.defaults; dparams=params[len(params)-len(defaults):]
+    defaults=list(f.args.defaults); dparams=[a.arg for a in f.args.args][len(f.args.args)-len(defaults):]
+    for a,d in zip(f.args.kwonlyargs,f.args.kw_defaults):
+      if d is not None: dparams.append(a.arg); defaults.append(d)
     for p,d in zip(dparams,defaults):
       if p not in env:
         if isinstance(d,ast.Constant):
